@@ -83,7 +83,30 @@ def seeded():
                                     "them with a concrete failing input." % (n, det, conc)])
 
 
-GEN = {"asbuilt": asbuilt, "seeded": seeded}
+def refactors():
+    rows = []
+    for p in sorted(glob.glob(os.path.join(HERE, "refactors", "*", "meta.json"))):
+        m = json.load(open(p))
+        note = ""
+        np_ = os.path.join(os.path.dirname(p), "note.md")
+        if os.path.exists(np_):
+            for l in open(np_).read().splitlines():
+                if l.strip() and not l.startswith("```"):
+                    note = l.lstrip("# ").strip()
+                    break
+        why = ""
+        if m.get("result", "").startswith("tie broken"):
+            why = "; ".join(b.split(" BROKEN ", 1)[-1][:160] for b in m.get("check", {}).get("broken", [])[:1])
+        rows.append("| %s | %s | `./check %s` | %s | %s |" % (m["id"], note[:150].replace("|", "/"), m["property"], m.get("result", "?"),
+                                                          why.replace("|", "/")))
+    head = ["| refactoring (`refactors/<id>/`) | what it does | check | result | what stopped checking |", "|---|---|---|---|---|"]
+    quiet = sum("quiet" in r for r in rows)
+    return "\n".join(head + rows + ["", "%d behaviour-preserving refactorings, %d leave the check quiet (exit 0), %d break the tie to the "
+                                    "model without a failing input (the outcome the brief allows), %d false alarms with a concrete input."
+                                    % (len(rows), quiet, sum("tie broken" in r for r in rows), sum("ALARM" in r for r in rows))])
+
+
+GEN = {"asbuilt": asbuilt, "seeded": seeded, "refactors": refactors}
 
 
 def main():
